@@ -106,11 +106,21 @@ class Grid(col.MutableSequence):
                 return abs(v1 - v2) < 0.000001
             except OverflowError:
                 return False
+        elif isinstance(v1, (list, tuple)) or isinstance(v2, (list, tuple)):
+            # Element by element, by the same rules as a cell
+            return isinstance(v1, (list, tuple)) and \
+                   isinstance(v2, (list, tuple)) and \
+                   len(v1) == len(v2) and \
+                   all(Grid._approx_check(e1, e2) for e1, e2 in zip(v1, v2))
+        elif isinstance(v1, dict) or isinstance(v2, dict):
+            return isinstance(v1, dict) and \
+                   isinstance(v2, dict) and \
+                   set(v1.keys()) == set(v2.keys()) and \
+                   all(Grid._approx_check(v1[k], v2[k]) for k in v1.keys())
         else:
             try:
                 return bool(v1 == v2)
             except TypeError:
-                # e.g. lists holding quantities of different units
                 return False
 
     def __eq__(self, other):
